@@ -7,8 +7,11 @@ pub mod c01;
 pub mod c02;
 pub mod c09;
 pub mod c10;
+pub mod c15;
+pub mod c19;
+pub mod strings;
 
-pub const ALL: &[&str] = &["C01", "C02", "C09", "C10"];
+pub const ALL: &[&str] = &["C01", "C02", "C09", "C10", "C15", "C16", "C17", "C18", "C19"];
 
 pub fn all_subs() -> Vec<Sub> {
     let mut v = Vec::new();
@@ -16,6 +19,9 @@ pub fn all_subs() -> Vec<Sub> {
     v.extend(c02::subs());
     v.extend(c09::subs());
     v.extend(c10::subs());
+    v.extend(c15::subs());
+    v.extend(c19::subs());
+    v.extend(strings::subs());
     v
 }
 
@@ -33,6 +39,11 @@ pub fn run(env: &mut Env) -> Option<RunResult> {
         "C02" => c02::run(env),
         "C09" => c09::run(env),
         "C10" => c10::run(env),
+        "C15" => c15::run(env),
+        "C16" => strings::run_c16(env),
+        "C17" => strings::run_c17(env),
+        "C18" => strings::run_c18(env),
+        "C19" => c19::run(env),
         _ => return None,
     })
 }
@@ -80,6 +91,46 @@ pub fn meta(prop: &str) -> Meta {
             "tape-generated valid packets are encoded by the library and decoded by the harness' reference decoder (written from the OASIS specs); the recovered wire-level values must equal project(packet), a name-keyed spec-number mapping that never uses `as u8`. Non-trivial: encoding longer than 4 bytes; distinct by hash of the encoding. Every reason/return code, property id per context and protocol level is required to have been exercised",
             &[COMMON_ASSUME, BOUNDS],
         ),
+        "C15" => Meta {
+            exhaustive_when_complete: true,
+            ..m(
+                "exploration",
+                "enumeration of the var-int domain 0..=268,435,455 (thorough: every value; quick: every value below 86,384, +-70,000 around 2^21 and below 2^28, stride 97 elsewhere) against a closed-form arithmetic model: writer bytes (through the SUBSCRIBE property set), reported size, reader inverse and bytes consumed (decode_raw_header, SubscribeProperties::decode_async), total_len/header_len/remaining_len, the poll decoder's header state for boundary and sampled values; the first invalid values; all 9,330 continuation-bit patterns of <= 5 bytes over payloads {00,01,7F}. Every value/pattern is distinct by construction (counted)",
+                &[COMMON_ASSUME],
+            )
+        },
+        "C16" => Meta {
+            exhaustive_when_complete: true,
+            ..m(
+                "exploration",
+                "bounded-exhaustive enumeration of strings over the alphabet {'/','+','#','$','a',NUL,'é','😀'} alone and behind 11 '$share'/'$SYS' prefix shapes, plus structured strings of 65,533..70,000 bytes; oracle: split-based predicate written from MQTT 4.7/4.8; TopicFilter::is_invalid, the constructor and v3/v5 SUBSCRIBE/UNSUBSCRIBE decoding (blocking always, async+poll for every 8th string) must all give the oracle's decision. Every string is distinct by construction (counted); 'exhaustive' refers to the stated bounded space",
+                &[COMMON_ASSUME, "strings outside the enumerated space are only sampled by the long-string list"],
+            )
+        },
+        "C17" => Meta {
+            exhaustive_when_complete: true,
+            ..m(
+                "exploration",
+                "every valid filter of C16's bounded space: accessors vs the unique split '$share/'+name+'/'+filter computed by the harness, to_string/deref = text, is_sys; equality, ordering (antisymmetry, transitivity, partial_cmp = cmp, Equal <=> same text) and hashing on neighbouring and distant triples, including equal texts from separate allocations and from a decoded SUBSCRIBE. Non-trivial = valid filter; distinct by construction (counted)",
+                &[COMMON_ASSUME, "hash equality is checked with std's DefaultHasher"],
+            )
+        },
+        "C18" => Meta {
+            exhaustive_when_complete: true,
+            ..m(
+                "exploration",
+                "bounded-exhaustive enumeration of strings over {'/','+','#','$','a','S',NUL,'é','😀'} alone and behind '$share/', '$SYS/' and near-miss prefixes, plus strings of 65,533..70,000 bytes; oracle: <= 65,535 bytes and none of '+', '#', U+0000; checked through TopicName::is_invalid, the constructor (read-back, is_shared, is_sys) and six packet paths (v3/v5 PUBLISH topic, v3/v5 will topic, v5 response topic in PUBLISH and will properties). Every string is distinct by construction (counted)",
+                &[COMMON_ASSUME],
+            )
+        },
+        "C19" => Meta {
+            exhaustive_when_complete: true,
+            ..m(
+                "exploration",
+                "exhaustive enumeration of all 65,535 identifiers x 65,536 amounts against a cycle model in i64 arithmetic (add, sub, inverse both ways, += / -=, never 0) plus construction from 0 and from every non-zero value; non-trivial = pairs whose sum or difference crosses the wrap (counted, distinct by construction)",
+                &["overflow checks are enabled in the build that runs this check (relcheck profile)"],
+            )
+        },
         _ => m("exploration", "", &[]),
     }
 }
